@@ -40,7 +40,9 @@ def cscalar(v):
         return ["s", str(v)]
     if isinstance(v, (datetime.date, datetime.datetime)):
         return ["d", v.isoformat()]
-    return ["?", type(v).__name__, repr(v)]
+    # a foreign object (e.g. a NodeCoords left inside the document by broken
+    # code): its repr can be cyclic / exponential, so only the type is kept
+    return ["?", type(v).__name__]
 
 
 def canon(node):
